@@ -75,6 +75,14 @@ def _mat(rec):
         return G.sym_matrix(rec["n"], rec["s"])
     if k == "mat":
         return G.matrix(rec["n"], rec["s"])
+    if k in ("isym", "imat"):
+        # small whole numbers: weighted path lengths collide with each
+        # other and with N
+        r = G.rng_of(rec["s"])
+        n = rec["n"]
+        W = np.array([[float(r.choice((1, 1, 2, 2, 3))) for _ in range(n)]
+                      for _ in range(n)])
+        return W if k == "imat" else np.triu(W, 1) + np.triu(W, 1).T
     if k == "series":
         return G.series(rec["T"], rec["n"], rec["s"])
     if k == "pseries":
@@ -230,7 +238,8 @@ NET_MUTS = [
         lambda obj, a, m: setattr(obj, "node_weights", mat(a["w"])), _upd_w),
     Mut("set_link_attribute", lambda r, m: {
         "name": r.choice(("w", "w", "w2")),
-        "W": {"k": "mat" if m.get("directed") else "sym", "n": m["n"],
+        "W": {"k": r.choice(("", "", "i")) + (
+            "mat" if m.get("directed") else "sym"), "n": m["n"],
               "s": r.randrange(10 ** 9)}}, _apply_attr, _upd_attr),
     Mut("del_link_attribute", lambda r, m: {
         "name": sorted(m["attrs"])[r.randrange(len(m["attrs"]))]},
@@ -328,8 +337,8 @@ def _net_model(r, n=None, directed=None):
          "w": r.choice((None, {"k": "w", "n": n, "s": r.randrange(10 ** 9)})),
          "attrs": {}}
     if r.random() < 0.8:
-        m["attrs"]["w"] = {"k": "mat" if d else "sym", "n": n,
-                           "s": r.randrange(10 ** 9)}
+        m["attrs"]["w"] = {"k": r.choice(("", "", "i")) + (
+            "mat" if d else "sym"), "n": n, "s": r.randrange(10 ** 9)}
     return m
 
 
@@ -422,12 +431,24 @@ class ResSpec(Spec):
                 "R": {"k": "res", "A": A, "s": r.randrange(10 ** 9)}}
 
     def construct(self, m):
-        return self.cls()(mat(m["R"]), adjacency=mat(m["A"]),
-                          silence_level=3)
+        R = mat(m["R"])
+        obj = self.cls()(R, adjacency=mat(m["A"]), silence_level=3)
+        obj.__dict__["_verif_caller_R"] = R     # the caller keeps its array
+        return obj
 
     def mutators(self):
         def upd(m, a, obj):
             m["R"] = a["R"]
+
+        def apply_new(obj, a):
+            R = mat(a["R"])
+            obj.update_resistances(R)
+            obj.__dict__["_verif_caller_R"] = R
+
+        def apply_same(obj, a):
+            R = obj.__dict__["_verif_caller_R"]
+            R[...] = _mat(a["R"])
+            obj.update_resistances(R)
         # Network-level topology changes would desynchronise the
         # resistances; only weights/attributes and the resistances change
         keep = [x for x in NET_MUTS if x.name in (
@@ -436,7 +457,13 @@ class ResSpec(Spec):
             Mut("update_resistances",
                 lambda r, m: {"R": {"k": "res", "A": m["A"],
                                     "s": r.randrange(10 ** 9)}},
-                lambda obj, a, m: obj.update_resistances(mat(a["R"])), upd)]
+                lambda obj, a, m: apply_new(obj, a), upd),
+            # the caller edits the array it passed last time and passes the
+            # same object again
+            Mut("update_resistances:same-array",
+                lambda r, m: {"R": {"k": "res", "A": m["A"],
+                                    "s": r.randrange(10 ** 9)}},
+                lambda obj, a, m: apply_same(obj, a), upd)]
 
 
 class ClimateSpec(Spec):
@@ -914,11 +941,13 @@ class CRPSpec(RPSpec):
 
     def gen_model(self, r):
         T = r.randrange(10, 22)
-        m = {"n": T, "x": {"k": "series1", "T": T, "s": r.randrange(10 ** 9)},
+        dt = r.choice((None, None, "float32"))
+        m = {"n": T, "x": {"k": "series1", "T": T, "s": r.randrange(10 ** 9),
+                           "dt": dt},
              "y": {"k": "series1", "T": r.randrange(10, 22),
-                   "s": r.randrange(10 ** 9)},
+                   "s": r.randrange(10 ** 9), "dt": dt},
              "metric": r.choice(("supremum", "euclidean", "manhattan")),
-             "dim": None, "tau": 1}
+             "dim": None, "tau": 1, "normalize": r.random() < 0.3}
         self._crit(r, m, self.crit)
         return m
 
@@ -940,17 +969,24 @@ class JRPSpec(RPSpec):
 
     def gen_model(self, r):
         T = r.randrange(12, 24)
-        m = {"n": T, "x": {"k": "series1", "T": T, "s": r.randrange(10 ** 9)},
-             "y": {"k": "series1", "T": T, "s": r.randrange(10 ** 9)},
+        dt = r.choice((None, None, "float32"))
+        m = {"n": T, "x": {"k": "series1", "T": T, "s": r.randrange(10 ** 9),
+                           "dt": dt},
+             "y": {"k": "series1", "T": T, "s": r.randrange(10 ** 9),
+                   "dt": dt},
              "metric": "supremum", "dim": None, "tau": 1,
-             "lag": r.choice((0, 0, 1, -1))}
+             "lag": r.choice((0, 0, 1, -1)),
+             "normalize": r.random() < 0.3}
         self._crit(r, m, self.crit)
         m["n"] = T - abs(m["lag"])
         return m
 
     def kw(self, m):
-        return {m["crit"]: (m["cv"], m["cv"]), "lag": m["lag"],
-                "silence_level": 3}
+        kw = {m["crit"]: (m["cv"], m["cv"]), "lag": m["lag"],
+              "silence_level": 3}
+        if m.get("normalize"):
+            kw["normalize"] = True
+        return kw
 
     def construct(self, m):
         return self.cls()(mat(m["x"]), mat(m["y"]), **self.kw(m))
